@@ -325,6 +325,34 @@ fn check(src: &str, ctxs: &[(String, HCtx)], st: &mut Stats) {
                     st.violation(viol("tree-level-differs-from-string-level", src, cname, "equal results and contexts".into(), d.unwrap_or_else(|| "contexts differ".into())));
                     return;
                 }
+                // a copy of the precompiled tree is the same precompiled tree: `clone()`, and `clone_from` into a
+                // tree that held another expression (round 12)
+                let t2 = t.clone();
+                let mut t3 = build_operator_tree::<DefaultNumericTypes>("a <= 1 ; f ( ! true , \" s \" ) ; b = 2").unwrap_or_else(|e| machinery_error(&format!("C12: the used tree does not precompile: {e:?}")));
+                t3.clone_from(t);
+                for (label, tc) in [("a clone of the tree", &t2), ("a used tree overwritten by clone_from", &t3)] {
+                    let got = guarded(|| {
+                        let mut cc = c.clone();
+                        let r = vec![canon(&tc.eval()), canon(&tc.eval_with_context(c)), canon(&tc.eval_with_context_mut(&mut cc))];
+                        (r, observe_vars(&cc))
+                    });
+                    st.evaluations += 3;
+                    let want = (
+                        vec![get(&t1, "eval"), get(&t1, "eval_with_context"), get(&t1, "eval_with_context_mut")],
+                        t1.after.iter().find(|x| x.0 == "eval_with_context_mut").map(|x| x.1.clone()).unwrap_or_default(),
+                    );
+                    match got {
+                        Ok(g) if g == want => {},
+                        Ok(g) => {
+                            st.violation(viol("copied-tree-differs", src, cname, format!("{:?} (the precompiled tree)", want), format!("{:?} ({})", g, label)));
+                            return;
+                        },
+                        Err(p) => {
+                            st.violation(viol("panic", src, cname, "Ok or Err".into(), format!("{}: panic at {}: {}", label, p.location, p.message)));
+                            return;
+                        },
+                    }
+                }
             },
             Err(e) => {
                 let want_untyped = canon(&Err::<EV, EErr>(e.clone()));
@@ -591,7 +619,7 @@ pub fn run(cfg: &Cfg) -> Report {
     Report {
         property: ID,
         level: "model_checking",
-        rule: format!("every token sequence of length <= {max} over the {a}-token alphabet `1 1.5 \" s \" true a f len ( ) , ; + = ! & &&` (well-formed or not; reaches all six result types and every error stage) x 13 contexts (fresh; a bound to each of the six types and to the empty tuple; user function f; builtins disabled; a user function shadowing the builtin `len`; a context holding variables named like the source text itself) x all 24 string-level entry points (run twice) + the 24 Node methods + build_operator_tree; oracle: each typed result is the projection of the matching untyped result, `_mut` variants leave the same context, tree level = string level, context-free = fresh HashMapContext, precompile error passed through by all 48; plus every history of 2 (quick) / 3 (thorough) context-free calls over a pool of 21 sources (assignments, assignments followed by a failure, reads, retypes) run back to back on one thread: the last call must behave as evaluation in a fresh context; plus every operator between the variable `a` and each of 12 constants that look neutral, absorbing or foldable (`0`, `1`, `0.0`, `1.0`, `\"\"`, `true`, `false`, `()` ...) in both orders, nested, assigned and as arguments; plus results of every size (`a` bound to a string of L bytes, a tuple of L elements, and nested ones, for every L in 0..=300 / 0..=1100, read directly, inside a tuple and through an assignment); plus scaling families (sums, products, concatenations, negations, tuples, chains of assignments, nestings, call chains of n elements for n in 1..20 and up to 129 / 1..40 and up to 400) through all entry points. States = sources, transitions = entry-point executions. Non-trivial = sources of >= 2 tokens (each enumerated once)"),
+        rule: format!("every token sequence of length <= {max} over the {a}-token alphabet `1 1.5 \" s \" true a f len ( ) , ; + = ! & &&` (well-formed or not; reaches all six result types and every error stage) x 13 contexts (fresh; a bound to each of the six types and to the empty tuple; user function f; builtins disabled; a user function shadowing the builtin `len`; a context holding variables named like the source text itself) x all 24 string-level entry points (run twice) + the 24 Node methods (and the three untyped ones on a clone of the tree and on a used tree overwritten by clone_from) + build_operator_tree; oracle: each typed result is the projection of the matching untyped result, `_mut` variants leave the same context, tree level = string level, context-free = fresh HashMapContext, precompile error passed through by all 48; plus every history of 2 (quick) / 3 (thorough) context-free calls over a pool of 21 sources (assignments, assignments followed by a failure, reads, retypes) run back to back on one thread: the last call must behave as evaluation in a fresh context; plus every operator between the variable `a` and each of 12 constants that look neutral, absorbing or foldable (`0`, `1`, `0.0`, `1.0`, `\"\"`, `true`, `false`, `()` ...) in both orders, nested, assigned and as arguments; plus results of every size (`a` bound to a string of L bytes, a tuple of L elements, and nested ones, for every L in 0..=300 / 0..=1100, read directly, inside a tuple and through an assignment); plus scaling families (sums, products, concatenations, negations, tuples, chains of assignments, nestings, call chains of n elements for n in 1..20 and up to 129 / 1..40 and up to 400) through all entry points. States = sources, transitions = entry-point executions. Non-trivial = sources of >= 2 tokens (each enumerated once)"),
         nontrivial_set: "counter:nontrivial-distinct",
         exhaustive: true,
         bound_completed: format!("token sequences of length {max}"),
